@@ -220,6 +220,24 @@ def rule_take_axis(ctx):
             ctx.violated('R3', fi, 'label mode', "indexing='label' must translate the labels with ax.loc(indices)", node=p.node)
 
 
+def skip_guard_check(ctx, rid, fi, callee, label):
+    """A per-dimension step (`callee`) inside a loop over the shared dimensions may be skipped only when the labels are identical in order;
+    a set comparison (np.isin(...).all(), set(...) ==, sorted(...) ==) also holds for permuted labels.  Path-sensitive (fork mode)."""
+    evf = run(ctx, fi, mode='fork', oracle=lambda a, st: True if (a[0] == 'call' and T.dotted(a[1]) == 'hasattr') else None)
+    weak = None
+    for q in evf.paths:
+        for e2 in q.calls(callee):
+            for a, pol in e2.guards:
+                if any(x[0] == 'call' and (T.call_name(x) in ('isin', 'in1d', 'issubset', 'issuperset') or T.dotted(x[1]) in ('set', 'frozenset', 'sorted')) for x in T.subterms(a)):
+                    weak = (a, e2)
+    if weak is not None:
+        a, e2 = weak
+        ctx.violated(rid, fi, 'dimension skipped on a set comparison', '%s skips a shared dimension under the test %s: that also holds when the template carries the same labels in '
+                     'another order, so the axis and the data stay in the old order' % (label, T.show(a)[:80]), node=e2.node)
+        return False
+    return True
+
+
 def rule_reindex_like(ctx):
     ctx.rule('R4', 'reindex_like accumulates over the shared dimensions', 1)
     fi = ctx.fn(AL + 'reindex_like')
